@@ -195,36 +195,79 @@ def ac_post(ctx, st, result):
 
 # ------------------------------------------------------------------------------------- _load_env_vars
 def le_setup(ctx):
-    order = [(0, 1, 2), (2, 1, 0), (1, 0, 2), (2, 0, 1)][ctx.choose(4, "declaration-order")]
-    kinds = ["ActionConfigFile", "_ActionSubCommands", "ActionTypeHint"]
-    acts = [Rec(kinds[i], attrs={"dest": ["cfg", "subcommand", "a"][i], "choices": {"fit": 1}, "_name_parser_map": {"fit": Rec("ArgumentParser", methods={"parse_env": lambda c, s_, a, k: (c.event("sub.parse_env"), Rec("Namespace", attrs={"vars": {"x": 1}}))[1]})}}) for i in order]
-    envmap = {"APP_CFG": z3.String("env.cfg"), "APP_SUBCOMMAND": "fit", "APP_A": z3.String("env.a")}
+    from pyvc.engine import ExcVal, PyRaise
+    order = [(0, 1, 2, 3), (3, 2, 1, 0), (1, 0, 3, 2), (2, 0, 1, 3)][ctx.choose(4, "declaration-order")]
+    kinds = ["ActionConfigFile", "_ActionSubCommands", "ActionTypeHint", "ActionTypeHint"]
+    dests = ["cfg", "subcommand", "a", "lst"]
+    sub_ns = Rec("Namespace", attrs={"vars": {"x": z3.Int("sub.x")}})
+    subparser = Rec("ArgumentParser", methods={"parse_env": lambda c, s_, a, k: (c.event("sub.parse_env", dict(k)), sub_ns)[1]})
+    acts = [Rec(kinds[i], attrs={"dest": dests[i], "choices": {"fit": 1}, "_name_parser_map": {"fit": subparser}, "list_valued": dests[i] == "lst"}) for i in order]
+    sub_choice = ["fit", "unknown-name"][ctx.choose(2, "subcommand-variable-names")]
+    lst_kind = ["a-json-list", "a-scalar", "not-loadable"][ctx.choose(3, "list-variable-holds")]
+    envmap = {"APP_CFG": z3.String("env.cfg"), "APP_SUBCOMMAND": sub_choice, "APP_A": z3.String("env.a"), "APP_LST": z3.String("env.lst")}
     present = {k: ctx.choose(2, f"{k}-set") == 1 for k in envmap}
     env_rec = Rec("dict", methods={"__contains__": lambda c, s_, a, k: present.get(a[0], False), "__getitem__": lambda c, s_, a, k: envmap[a[0]]})
     store = {}
     cfg_rec = Rec("Namespace", methods={"__setitem__": lambda c, s_, a, k: (store.__setitem__(a[0], a[1]), c.event("set", a[0]))[1]})
+    loaded_list = [z3.String("item0"), z3.String("item1")]
+    ctx.classes.add("YAMLError", ["Exception"])
+
+    def load_value(c, a, k):
+        c.event("load_value", a[0])
+        if lst_kind == "not-loadable":
+            raise PyRaise(ExcVal("YAMLError", origin="load_value"))
+        return loaded_list if lst_kind == "a-json-list" else z3.Int("loaded-scalar")
+
     self = Rec("ArgumentParser", attrs={"_actions": acts}, methods={
-        "_check_value_key": lambda c, s_, a, k: (c.event("check", a[0].attrs["dest"], a[1]), a[1])[1],
-        "_apply_actions": lambda c, s_, a, k: c.event("apply_actions")})
+        "_check_value_key": lambda c, s_, a, k: (c.event("check", a[0].attrs["dest"], a[1], a[2], a[3]), ("checked", a[0].attrs["dest"]) if a[0].attrs["dest"] != "subcommand" else a[1])[1],
+        "_apply_actions": lambda c, s_, a, k: c.event("apply_actions", a[0])})
     calls = {
         "filter_default_actions": lambda c, a, k: list(a[0]),
-        "get_env_var": lambda c, a, k: {"cfg": "APP_CFG", "subcommand": "APP_SUBCOMMAND", "a": "APP_A"}[a[1].attrs["dest"]],
-        "ActionConfigFile.apply_config": lambda c, a, k: c.event("apply_config", a[2], a[3]),
-        "Namespace": lambda c, a, k: cfg_rec, "_is_action_value_list": lambda c, a, k: False,
-        "vars": lambda c, a, k: a[0].attrs["vars"],
+        "get_env_var": lambda c, a, k: (c.event("env-var-of", a[0]), {"cfg": "APP_CFG", "subcommand": "APP_SUBCOMMAND", "a": "APP_A", "lst": "APP_LST"}[a[1].attrs["dest"]])[1],
+        "ActionConfigFile.apply_config": lambda c, a, k: c.event("apply_config", a[0], a[1], a[2], a[3]),
+        "Namespace": lambda c, a, k: cfg_rec, "_is_action_value_list": lambda c, a, k: a[0].attrs["list_valued"],
+        "vars": lambda c, a, k: a[0].attrs["vars"], "load_value": load_value, "get_loader_exceptions": lambda c, a, k: (ClassRef("YAMLError"),),
     }
-    return Setup(env={"self": self, "env": env_rec, "defaults": True}, calls=calls, data=dict(present=present, envmap=envmap, store=store))
+    defaults = z3.Bool("defaults")
+    return Setup(env={"self": self, "env": env_rec, "defaults": defaults}, calls=calls,
+                 data=dict(present=present, envmap=envmap, store=store, sub_choice=sub_choice, lst_kind=lst_kind, loaded_list=loaded_list, self_=self, env_rec=env_rec, cfg_rec=cfg_rec, defaults=defaults, sub_ns=sub_ns))
 
 
 def le_post(ctx, st, result):
     d = st.data
-    seq = [e[0] + ":" + str(e[1]) for e in ctx.events if e[0] in ("apply_config", "check")]
-    want = (["apply_config:cfg"] if d["present"]["APP_CFG"] else []) + (["check:subcommand"] if d["present"]["APP_SUBCOMMAND"] else []) + (["check:a"] if d["present"]["APP_A"] else [])
-    ctx.oblige("post", "order:config-variable,then-subcommand,then-individual-variables(whatever the declaration order)", seq == want, note=f"{seq} vs {want}")
-    if d["present"]["APP_A"]:
-        ctx.oblige("post", "an-individual-variable-ends-up-as-the-value-of-its-key(overriding the env config)", d["store"].get("a") is d["envmap"]["APP_A"])
-    if d["present"]["APP_SUBCOMMAND"]:
-        ctx.oblige("post", "subcommand-environment-is-merged-under-the-subcommand's-name", "fit.x" in d["store"] and d["store"].get("subcommand") == "fit")
+    P = d["present"]
+    sub_ok = P["APP_SUBCOMMAND"] and d["sub_choice"] == "fit"
+    seq = [e[0] + ":" + str(e[1] if e[0] == "check" else e[3]) for e in ctx.events if e[0] in ("apply_config", "check")]
+    want = (["apply_config:cfg"] if P["APP_CFG"] else []) + (["check:subcommand"] if sub_ok else []) + [f"check:{k}" for k, v in (("a", "APP_A"), ("lst", "APP_LST")) if P[v]]
+    ctx.oblige("post", "order:config-variable,then-subcommand,then-individual-variables(whatever the declaration order)", sorted(seq[len(want) - sum(P[v] for v in ("APP_A", "APP_LST")):]) == sorted(want[len(want) - sum(P[v] for v in ("APP_A", "APP_LST")):])
+               and seq[: len(seq) - sum(P[v] for v in ("APP_A", "APP_LST"))] == want[: len(want) - sum(P[v] for v in ("APP_A", "APP_LST"))], note=f"{seq} vs {want}")
+    if P["APP_CFG"]:
+        ac = [e for e in ctx.events if e[0] == "apply_config"]
+        ctx.oblige("post", "the-config-variable's-content-is-applied-as-a-config-of-this-parser-onto-the-result,under-the-config-option's-dest",
+                   len(ac) == 1 and ac[0][1] is d["self_"] and ac[0][2] is d["cfg_rec"] and ac[0][3] == "cfg" and ac[0][4] is d["envmap"]["APP_CFG"])
+    if P["APP_A"]:
+        ck = [e for e in ctx.events if e[0] == "check" and e[1] == "a"]
+        ctx.oblige("post", "an-individual-variable's-text-is-checked-by-its-action(with the configuration so far)-and-the-checked-value-ends-up-under-its-key(overriding the env config)",
+                   len(ck) == 1 and ck[0][2] is d["envmap"]["APP_A"] and ck[0][3] == "a" and ck[0][4] is d["cfg_rec"] and d["store"].get("a") == ("checked", "a"))
+    if P["APP_LST"]:
+        ck = [e for e in ctx.events if e[0] == "check" and e[1] == "lst"]
+        given = ck[0][2] if ck else None
+        text = d["envmap"]["APP_LST"]
+        if d["lst_kind"] == "a-json-list":
+            ok = given is d["loaded_list"]
+        else:
+            ok = isinstance(given, list) and len(given) == 1 and given[0] is text
+        ctx.oblige("post", "a-list-valued-option's-variable:a-JSON/YAML-list-is-its-items,anything-else(also unloadable text)-is-one-item-holding-the-text" + f"[{d['lst_kind']}]", len(ck) == 1 and ok and d["store"].get("lst") == ("checked", "lst"))
+    if sub_ok:
+        se = [e for e in ctx.events if e[0] == "sub.parse_env"]
+        ctx.oblige("post", "the-selected-subcommand's-own-environment-is-read-by-its-parser(same mapping, same defaults flag, unvalidated)-and-merged-under-the-subcommand's-name",
+                   "fit.x" in d["store"] and d["store"]["fit.x"] is d["sub_ns"].attrs["vars"]["x"] and d["store"].get("subcommand") == "fit" and len(se) == 1
+                   and se[0][1].get("env") is d["env_rec"] and se[0][1].get("defaults") is d["defaults"] and se[0][1].get("_skip_validation") is True)
+    elif P["APP_SUBCOMMAND"]:
+        ctx.oblige("post", "a-subcommand-variable-that-names-no-subcommand-selects-nothing", "subcommand" not in d["store"] and not [e for e in ctx.events if e[0] == "sub.parse_env"])
+    aa = [e for e in ctx.events if e[0] == "apply_actions"]
+    ctx.oblige("post", "finally-every-key-collected-meets-its-action(_apply_actions on the result),and-the-result-is-returned", len(aa) == 1 and aa[0][1] is d["cfg_rec"] and ctx.events[-1][0] == "apply_actions" and result is d["cfg_rec"])
+    ctx.oblige("post", "every-variable-name-is-computed-for-this-parser", all(e[1] is d["self_"] for e in ctx.events if e[0] == "env-var-of"))
 
 
 UNITS = [
